@@ -1,6 +1,6 @@
 From Coq Require Import ZArith QArith List.
 From Coq Require Import ExtrOcamlBasic ExtrOcamlString.
 From OsmtV.Num Require Import Chars Regex Gen_RealString Gen_LexNum LitModel RatPrint.
-Extraction "num_model.ml" is_int_string is_real_string string_to_rational mk_const mk_const_sort fr_of_string
+Extraction "num_model.ml" is_int_string is_real_string string_to_rational mk_const mk_const_sort fr_of_string mk_eq_int_consts
   term_to_smt2 term_print fr_print get_str qd_str read_num_term lex lex_rules matches
   re_TK_NUM re_TK_DEC re_TK_HEX re_TK_BIN re_TK_SYM re_TK_KEY Qred N_to_str.
